@@ -50,11 +50,17 @@ def uses(m, kind):
     return any(uses(k, kind) for k in m[1])
 
 
+def uses_head(m, name):
+    if m[0] in "ehw":
+        return m[0] == "h" and m[1] == name
+    return any(uses_head(k, name) for k in m[1])
+
+
 def model_xsd(m, variant="inline"):
     groups_out: list[str] = []
     body = particle_xsd(m, [], variant, groups_out)
     glob = ""
-    if uses(m, "h"):
+    if uses_head(m, "a"):
         import zlib
         if zlib.crc32(mkey(m).encode()) % 2:
             glob = ('<xs:element name="a" type="xs:string"/>'
@@ -63,8 +69,14 @@ def model_xsd(m, variant="inline"):
             glob = ('<xs:element name="a" type="xs:string"/>'
                     '<xs:element name="k" type="xs:string" abstract="true" substitutionGroup="t:a"/>'
                     '<xs:element name="m" type="xs:string" substitutionGroup="t:k"/>')
+    imp = ""
+    if uses_head(m, "f"):      # head f of this namespace with the member o of the foreign namespace urn:O
+        import pathlib
+        loc = (pathlib.Path(__file__).parent / "res" / "o_member.xsd").as_uri()
+        imp = f'<xs:import namespace="urn:O" schemaLocation="{loc}"/>'
+        glob += '<xs:element name="f" type="xs:string"/>'
     return (f'<xs:schema xmlns:xs="{XS}" targetNamespace="{TNS}" xmlns:t="{TNS}" '
-            f'elementFormDefault="qualified">'
+            f'elementFormDefault="qualified">{imp}'
             f'<xs:element name="root"><xs:complexType>{body}</xs:complexType></xs:element>'
             f'{glob}{"".join(groups_out)}</xs:schema>')
 
